@@ -27,7 +27,7 @@ type Prop[C any] struct {
 func (p Prop[C]) Run(t *testing.T) {
 	st := GetStats(p.ID, p.Part)
 	st.SetRule(p.Rule)
-	defer st.Flush()
+	defer FlushAll()
 	if f := os.Getenv("VERIF_REPLAY"); f != "" {
 		var doc struct {
 			Part string          `json:"part"`
